@@ -315,7 +315,15 @@ def parser_twin(prog, chk, C, J):
             k_ = n_.get('k')
             if (k_ == 'BinaryOperator' and n_.get('op') in ('=', '+=')) or k_ == 'CompoundAssignOperator':
                 if re.search(r'(\.|->)nAtoms$', show(n_['c'][0]).replace(' ', '')):
-                    out[(n_.get('op'), norm_count(show(n_['c'][1])))] += 1
+                    op_, rhs_ = n_.get('op'), strip_casts(n_['c'][1])
+                    # x = x + e (either order) is x += e
+                    if op_ == '=' and rhs_.get('k') == 'BinaryOperator' and rhs_.get('op') == '+':
+                        lt_ = show(n_['c'][0]).replace(' ', '')
+                        for me_, other_ in ((rhs_['c'][0], rhs_['c'][1]), (rhs_['c'][1], rhs_['c'][0])):
+                            if show(strip_casts(me_)).replace(' ', '') == lt_:
+                                op_, rhs_ = '+=', other_
+                                break
+                    out[(op_, norm_count(show(rhs_)))] += 1
             if java and k_ == 'NewExpr' and n_.get('cls') == 'compoundAtom' and len(n_.get('args', [])) == 2:
                 v_ = norm_count(show(n_['args'][1]))
                 if v_ not in ('0.0', '0'):
